@@ -244,6 +244,9 @@ pub fn alphabet(name: &str) -> Vec<&'static str> {
         "ws" => vec![" ", "\t", "\u{00A0}", "\u{3000}", "a", "b", "\u{200B}", "e\u{0301}", "\r\n"],
         // pure ASCII (byte-wise fast paths): every ASCII White_Space character, a, a control that is not whitespace, CRLF
         "asciiws" => vec![" ", "\t", "\n", "\u{000B}", "\u{000C}", "\r", "a", "\u{001F}", "\r\n"],
+        // code points that fuse into one grapheme cluster once the whitespace between them is gone:
+        // regional indicators D and E, Hangul leading consonant and vowel; plus space, tab, a, b
+        "fuse" => vec![" ", "\t", "\u{1F1E9}", "\u{1F1EA}", "\u{1100}", "\u{1161}", "a", "b", "\u{1F1E9}\u{1F1EA}"],
         // clean texts: space, then letters incl. multi-byte and a cluster
         "cleanpair" => vec![" ", "a", "b", "ä", "e\u{0301}"],
         // tokenizer texts: a, a-umlaut, e + combining acute, space, <, p, >, emoji
